@@ -373,6 +373,7 @@ def observe(m, J, st, root, tyname, spec, what, mf):
         nxt = []
         for s, raw in states:
             src = s.extra['root']
+            while isinstance(src, Ref) and isinstance(deref(src), Ref): src = deref(src)      # look through Arc layers
             if w in ('source', 'rope', 'buffer', 'size'):
                 outs = api.call(m, s, '<%s as Source>::%s' % (tyname, w), [src])
             elif w in ('writer', 'writerfail'):
@@ -627,3 +628,83 @@ def tree_job(jid, tree, props=None, what=('source', 'rope', 'buffer', 'size', 'w
                 finish(m, J, s, raw, spec, props, mf)
     J.see('ran')
     return J.result(required_witnesses=('ran',) + tuple(witnesses))
+
+
+# ------------------------------------------------------------------------------------------ translator validation
+def random_tree(rnd, depth=0):
+    texts = ['', 'a', 'a;b', 'ab\n', 'a;\n b{c}\n', '\n\n', 'x = 1;\ny', '  ;;a', 'é;\n€', 'a\tb\r\n']
+    k = rnd.choice(['orig', 'rawstr', 'raw', 'rawbuf', 'concat', 'replace', 'cached', 'sms', 'boxed'] if depth < 2 else ['orig', 'rawstr', 'raw', 'rawbuf'])
+    if k == 'orig': return {'kind': 'orig', 'text': rnd.choice(texts), 'name': rnd.choice(['a.js', 'b.js'])}
+    if k in ('rawstr', 'raw', 'rawbuf'): return {'kind': k, 'text': rnd.choice(texts)}
+    if k == 'concat': return {'kind': 'concat', 'children': [random_tree(rnd, depth + 1) for _ in range(rnd.randint(0, 3))]}
+    if k in ('cached', 'boxed'): return {'kind': k, 'inner': random_tree(rnd, depth + 1)}
+    if k == 'sms':
+        return {'kind': 'sms', 'text': rnd.choice(['abcd\nef', 'ab', 'a\n\nb\n']), 'name': 'x.js',
+                'map': {'mappings': rnd.choice(['AAAA', 'AAAA,CAAC;AACA', 'A,CAAAA', ';;AAAA', 'AAAA;;AAEA']), 'sources': ['o.js'], 'sourcesContent': rnd.choice([[], ['o\nriginal']]), 'names': ['nm'],
+                        **({'sourceRoot': rnd.choice(['', 'r', 'r/'])} if rnd.random() < 0.5 else {})}}
+    inner = random_tree(rnd, depth + 1)
+    n = len(oracles.provenance(inner)[0].encode('utf-8')) if not oracles.has_kind(inner, ('sms',)) else 6
+    reps = []
+    for _ in range(rnd.randint(0, 3)):
+        a = rnd.randint(0, n + 1); b = rnd.randint(a, n + 2)
+        reps.append({'start': a, 'end': b, 'content': rnd.choice(['', 'X', 'X\n', '\nY', 'XY']), 'name': rnd.choice([None, 'n']), 'enforce': rnd.choice([0, 1, 1, 2])})
+    return {'kind': 'replace', 'inner': inner, 'replacements': reps}
+
+
+def ascii_boundaries_ok(tree):
+    """replacement positions must be on char boundaries of the inner text: keep to ASCII inner texts for replace nodes"""
+    if tree['kind'] == 'replace':
+        if oracles.has_kind(tree['inner'], ('sms',)): txt = ''
+        else: txt = oracles.provenance(tree['inner'])[0]
+        if any(ord(c) > 127 for c in txt): return False
+    return all(ascii_boundaries_ok(c) for c in tree.get('children', [])) and ('inner' not in tree or ascii_boundaries_ok(tree['inner']))
+
+
+def tv_trees(jid, n=40, seed=0):
+    """translator validation (not a deciding step): pseudo-random CONCRETE source trees are observed by the interpreter and by the
+    native crate; every observation (text, all four streams event by event, both maps) must be identical."""
+    import random, subprocess, tempfile
+    rnd = random.Random(7000 + seed)
+    idx = api.load('mir'); m = api.machine(idx, loop_bound=200); J = Job(jid, m)
+    what = ['source', 'size', 'c1f0', 'c0f0', 'c1f1', 'c0f1', 'map1', 'map0']
+    trees = []
+    while len(trees) < n:
+        t = random_tree(rnd)
+        if ascii_boundaries_ok(t): trees.append(t)
+    with tempfile.NamedTemporaryFile('w', suffix='.json', delete=False) as f:
+        json.dump({'family': 'batch', 'items': [{'family': 'tree', 'tree': t, 'what': what} for t in trees]}, f); path = f.name
+    binp = os.path.join(api.VERIF, '.cache', 'replay-target-debug', 'debug', 'verif_replay')
+    r = subprocess.run([binp, path], capture_output=True, text=True, timeout=300)
+    os.unlink(path)
+    native = json.loads(r.stdout.strip().split('\n')[-1])['results']
+    bad = 0
+    for t, nat in zip(trees, native):
+        st = State(); sym = Sym(st, ALPHA['q'])
+        try:
+            root, spec = build(idx, sym, t, m, False)
+            st.extra['root'] = root if isinstance(root, Ref) else Ref(Cell(root))
+            outs = list(observe(m, J, st, None, type_name(unbox(t)), spec, what, lambda mdl: {}))
+            if len(outs) != 1: raise Inconclusive('concrete tree forked or panicked (%d outcomes)' % len(outs))
+            s, raw = outs[0]
+            mine = to_obs(m, s, J.model(m, s.pc), raw, idx)
+        except Inconclusive as e:
+            bad += 1; J.notes.append('interpreter could not run %r: %s' % (t, str(e)[:300])); continue
+        diffs = []
+        if nat.get('panicked') or nat.get('panics'): diffs.append('native panics %r' % (nat.get('panics') or nat.get('message')))
+        else:
+            if mine.get('source') != nat.get('source'): diffs.append('source %r vs %r' % (mine.get('source'), nat.get('source')))
+            if mine.get('views', {}).get('size') != nat.get('views', {}).get('size') and 'size' in nat.get('views', {}): diffs.append('size')
+            for k in ('c1f0', 'c0f0', 'c1f1', 'c0f1'):
+                a, b = mine['streams'].get(k), nat['streams'].get(k)
+                if a != b: diffs.append('%s: %r vs %r' % (k, a, b))
+            for k in ('c1', 'c0'):
+                a, b = mine['maps'].get(k), nat['maps'].get(k)
+                if a != b: diffs.append('map %s: %r vs %r' % (k, a, b))
+        if diffs:
+            bad += 1; J.notes.append('translator disagreement on %r: %s' % (t, '; '.join(diffs)[:600]))
+        J.paths += 1
+    res = J.result(status='pass' if bad == 0 else 'inconclusive')
+    res['tv'] = len(trees)
+    if bad: res['reason'] = 'translator validation failed on %d of %d trees: %s' % (bad, len(trees), ' || '.join(J.notes[:3])[:2500])
+    res['samples'] = ['translator validation: %d pseudo-random concrete source trees (all node kinds, seed %d): interpreter observations == native observations' % (len(trees), seed)]
+    return res
